@@ -166,7 +166,8 @@ def run(ctx):
             configs = []
             for _ in range(ctx.n(2, 4)):
                 configs.append(dict(variants_chunk_size=r.choice([1, 2, 3, n, n + 3, None]), samples_chunk_size=r.choice([1, 2, None]),
-                                    dimension_separator=r.choice([None, "/", "."]), mode=r.choice(["one-shot", "distributed"]), partitions=r.choice([1, 2, 3, 7])))
+                                    dimension_separator=r.choice([None, "/", "."]), mode=r.choice(["one-shot", "distributed"]), partitions=r.choice([1, 2, 3, 7]),
+                                    max_variant_chunks=r.choice([None, None, None, 1, 2, "all", "all+2"])))
             for cfg in configs:
                 out = os.path.join(d, "o.vcz")
                 shutil.rmtree(out, ignore_errors=True)
@@ -175,6 +176,14 @@ def run(ctx):
                 ctx.count("mode:" + cfg["mode"])
                 ctx.count("separator:" + str(cfg["dimension_separator"]))
                 kw = dict(variants_chunk_size=cfg["variants_chunk_size"], samples_chunk_size=cfg["samples_chunk_size"], dimension_separator=cfg["dimension_separator"])
+                # a cap on the number of variant chunks: the store holds exactly the corresponding prefix of the records
+                vcs = cfg["variants_chunk_size"] or 1000
+                nchunks = -(-n // vcs)
+                cap = cfg["max_variant_chunks"]
+                cap = nchunks if cap == "all" else nchunks + 2 if cap == "all+2" else cap
+                rows = n if cap is None else min(n, cap * vcs)
+                if cap is not None:
+                    kw["max_variant_chunks"] = cap
                 try:
                     if cfg["mode"] == "one-shot":
                         vcf2zarr.encode(icf, out, worker_processes=0, **kw)
@@ -183,7 +192,7 @@ def run(ctx):
                 except Exception as e:  # noqa: BLE001
                     ctx.fail(doc, dict(error=f"{type(e).__name__}: {e}"[:300]), "encode failed")
                     continue
-                check_store(ctx, doc, out, n, ns, expect_index=(cfg["mode"] == "one-shot"))
+                check_store(ctx, doc, out, rows, ns, expect_index=(cfg["mode"] == "one-shot"))
                 ctx.traces_validated += 1
         finally:
             shutil.rmtree(d, ignore_errors=True)
